@@ -880,6 +880,15 @@ public:
         A.push_back(OS.str());
       }
       O["ftargs"] = std::move(A);
+      json::Array FI;
+      for (const TemplateArgument &T : TA->asArray()) {
+        if (T.getKind() == TemplateArgument::Integral) {
+          llvm::APSInt I = T.getAsIntegral();
+          FI.push_back(I.isSigned() ? (int64_t)I.getSExtValue() : (int64_t)I.getZExtValue());
+        } else
+          FI.push_back(nullptr);
+      }
+      O["ftints"] = std::move(FI);
     }
     json::Array Ps;
     for (const ParmVarDecl *PV : F->parameters()) {
